@@ -12,7 +12,7 @@ EXPLANATION = (
     "keywords): in both observed layouts the comment and item atoms appear exactly once each, in source order. Dot chains: "
     "convert_field_access (try_convert_dot_chain, the plain forms, ChainStylist::process/print_doc) on a.f0.f1 with up to two comments "
     "(block, or line comment + newline) at any of the four gaps around the dots, every mode / suppression flag / chain width: all "
-    "comments and links are re-emitted once, in order. The binary chain and plain stylists, markup- and math-level placement and 'between the same neighbouring words' across constructs are outside the claim.")
+    "comments and links are re-emitted once, in order. The binary chain and plain stylists, markup- and math-level placement and 'between the same neighbouring words' across constructs are outside the claim. Session 3: whole documents (comments at ~60 positions in text / list / block / math contexts, list corpus, generated families) through the real printer, the interpreted renderer and the REAL parser: the comments of the output are those of the source, in order, each with its text.")
 
 
 def run(S):
